@@ -3630,6 +3630,59 @@ impl ContinuityStore {
         )
     }
 
+    /// Verification export: append a context-selection frame through the crate-private helper.
+    pub fn verif_append_context_selection_decided(
+        &self,
+        continuity_id: &str,
+        run_session_id: &str,
+        message_id: &str,
+        compiler_strategy: &str,
+        compaction_checkpoints: Vec<rip_kernel::ContextSelectionCompactionCheckpointV1>,
+        reason: Option<serde_json::Value>,
+    ) -> Result<String, String> {
+        self.append_context_selection_decided(
+            continuity_id,
+            ContextSelectionDecidedPayload {
+                run_session_id: run_session_id.to_string(),
+                message_id: message_id.to_string(),
+                compiler_id: "rip.context_compiler.v1".to_string(),
+                compiler_strategy: compiler_strategy.to_string(),
+                limits: serde_json::json!({"recent_messages_v1_limit": 16}),
+                compaction_checkpoint: compaction_checkpoints.last().cloned(),
+                compaction_checkpoints,
+                resets: Vec::new(),
+                reason,
+                actor_id: "verif".to_string(),
+                origin: "verif".to_string(),
+            },
+        )
+    }
+
+    /// Verification export: append a context-compiled frame through the crate-private helper.
+    pub fn verif_append_context_compiled(
+        &self,
+        continuity_id: &str,
+        run_session_id: &str,
+        bundle_artifact_id: &str,
+        compiler_strategy: &str,
+        from_seq: u64,
+        from_message_id: Option<String>,
+    ) -> Result<String, String> {
+        self.append_context_compiled(
+            continuity_id,
+            ContextCompiledPayload {
+                run_session_id: run_session_id.to_string(),
+                bundle_artifact_id: bundle_artifact_id.to_string(),
+                compiler_id: "rip.context_compiler.v1".to_string(),
+                compiler_strategy: compiler_strategy.to_string(),
+                from_seq,
+                from_message_id,
+                actor_id: "verif".to_string(),
+                origin: "verif".to_string(),
+            },
+        )
+    }
+
     /// Verification export: spawn a compaction job without running it (leaves it inflight).
     pub fn verif_compaction_auto_spawn_job(
         &self,
